@@ -47,6 +47,13 @@ def _endings():
     add('assert_run_nonzero', 'exec', 'fail', ['assert'])
     add('assert_stub_fail', 'exec', 'fail', ['assert'])
     add('run_nonzero', 'exec', 'HARD_ERROR', ['setup', 'before-assert', 'cleanup'])
+    # double endings: a failing assertion, then an error in [cleanup]: "anything that interrupts execution is reported
+    # as the documented error verdict" - a failed assertion does not turn a later error into a failed test
+    add('fail_then_cleanup_hard', 'exec', 'HARD_ERROR', ['cleanup'], how='exit_code_mismatch')
+    add('fail_then_cleanup_hard', 'exec', 'HARD_ERROR', ['cleanup'], how='run_nonzero')
+    add('fail_then_cleanup_hard', 'exec', 'HARD_ERROR', ['cleanup'], how='stub_fail')
+    add('fail_then_cleanup_exception', 'exec', 'INTERNAL_ERROR', ['cleanup'], how='exit_code_mismatch')
+    add('fail_then_cleanup_exception', 'exec', 'INTERNAL_ERROR', ['cleanup'], how='stub_fail')
     add('stub_hard_returned', 'exec', 'HARD_ERROR', INSTR_PHASES)
     add('stub_hard_raised', 'exec', 'HARD_ERROR', INSTR_PHASES)
     add('atc_cannot_start', 'exec', 'HARD_ERROR', ['act'])
@@ -191,6 +198,26 @@ def build(seed, tier, ending, status, mode, g, atc_exit=None, sweep=False):
         ident = casegen.PREFIX[ph] + 'x'
         procs[ident] = {'exit': g.choice([1, 2, 255]), 'stderr': 'boom\n'}
         insert(ph, {'k': 'probe', 'id': ident, 'form': g.choice(['%', 'run', '$'])})
+    elif eid in ('fail_then_cleanup_hard', 'fail_then_cleanup_exception'):
+        how = ending['how']
+        if how == 'exit_code_mismatch':
+            insert('assert', {'k': 'real', 'text': 'exit-code == %d' % ((atc_exit + g.choice([1, 2, 100])) % 256)})
+        elif how == 'run_nonzero':
+            procs['ax'] = {'exit': g.choice([1, 2, 255])}
+            insert('assert', {'k': 'probe', 'id': 'ax', 'form': g.choice(['%', 'run', '$'])})
+        else:
+            insert('assert', {'k': 'fault', 'id': 'ax'})
+            faults.append({'id': 'ax', 'step': 'main', 'kind': 'pfh_fail'})
+        if eid == 'fail_then_cleanup_hard':
+            if g.random() < 0.5:
+                procs['lx'] = {'exit': g.choice([1, 2, 255]), 'stderr': 'boom\n'}
+                insert('cleanup', {'k': 'probe', 'id': 'lx', 'form': g.choice(['%', 'run', '$'])})
+            else:
+                insert('cleanup', {'k': 'fault', 'id': 'lx'})
+                faults.append({'id': 'lx', 'step': 'main', 'kind': g.choice(['sh_hard', 'raise_hard'])})
+        else:
+            insert('cleanup', {'k': 'fault', 'id': 'lx'})
+            faults.append({'id': 'lx', 'step': 'main', 'kind': 'raise_exc', 'exc': g.choice(EXCS)})
     elif eid == 'stub_hard_returned':
         stub(ph, 'main', 'pfh_hard' if ph == 'assert' else 'sh_hard')
     elif eid == 'stub_hard_raised':
